@@ -122,11 +122,13 @@ func verify(g lstore.Geometry, c *lstore.Media, desc string, lim lstore.CrashLim
 	}
 	// Post-restart workload: fresh uploads must not overwrite space that holds served objects.
 	j0 := len(c.Journal)
+	var freshAll []lstore.Obj
 	for i := 0; i < 3; i++ {
 		fresh := lstore.CASObj(fmt.Sprintf("N%d", i), inst(g), []byte(fmt.Sprintf("n%dn%d!", i, i))[:3+i])
 		if err := rs.PutOK(fresh.Digest, fresh.Content); err != nil {
 			break
 		}
+		freshAll = append(freshAll, fresh)
 		for _, n := range names {
 			o := obj(g, n)
 			data, ok, err := resolve(rs, o.Digest)
@@ -151,6 +153,12 @@ func verify(g lstore.Geometry, c *lstore.Media, desc string, lim lstore.CrashLim
 			failf("wrong-bytes-after-crash", "%s: object uploaded after the restart reads back as %q (err=%v)", desc, data, err)
 		}
 	}
+	if rs.ReleaseWakeupReady() {
+		// the release loop rewrites the state file without a data sync, possibly before the put loop's first
+		// commit of this run; a restart from exactly that state must not hand out space holding served objects
+		rs.Syncer.ProcessBlockRelease()
+		secondRestart(g, rs, desc+", then fresh uploads and a release-triggered state write", freshAll)
+	}
 	if rs.PutWakeupReady() {
 		// commit the post-restart uploads and look again: records of epochs that were never
 		// committed before the crash must not come back to life under a re-used epoch id
@@ -169,6 +177,33 @@ func verify(g lstore.Geometry, c *lstore.Media, desc string, lim lstore.CrashLim
 				verify(g, c2, desc+" THEN "+d2, lim, st, false)
 			})
 		}
+	}
+}
+
+// secondRestart restarts once more, cleanly (every I/O operation issued so far survives), from whatever the
+// first recovered run has written, and checks every resolvable object before and after two more uploads.
+func secondRestart(g lstore.Geometry, rs *lstore.Store, desc string, fresh []lstore.Obj) {
+	g2 := g
+	g2.RawReads = true
+	r2 := rs.Restart(g2)
+	check := func(when string) {
+		all := append([]lstore.Obj{}, fresh...)
+		for _, n := range names {
+			all = append(all, obj(g, n))
+		}
+		for _, o := range all {
+			if data, ok, err := resolve(r2, o.Digest); ok && (err != nil || !bytes.Equal(data, o.Content)) {
+				failf("wrong-bytes-after-second-restart", "%s, then a clean restart: %s the store resolves %s to %q (err=%v); the uploaded content is %q", desc, when, o.Name, data, err, o.Content)
+			}
+		}
+	}
+	check("right away")
+	for i := 0; i < 2; i++ {
+		o := lstore.CASObj(fmt.Sprintf("M%d", i), inst(g), []byte(fmt.Sprintf("m%dm%dm", i, i))[:3+2*i])
+		if err := r2.PutOK(o.Digest, o.Content); err != nil {
+			break
+		}
+		check(fmt.Sprintf("after %d more upload(s)", i+1))
 	}
 }
 
